@@ -23,6 +23,8 @@ pub struct Log {
     pub full: bool,
     /// element events carry the attribute count only (pathological shapes: the cost measured is the library's)
     pub light: bool,
+    /// measurement runs: nothing is recorded (no event, no byte copies); scripts are still applied
+    pub bare: bool,
 }
 pub type SLog = Arc<Mutex<Log>>;
 
@@ -34,6 +36,7 @@ pub fn new_log(fail_at: Option<usize>, full: bool) -> SLog {
         fail_at,
         full,
         light: false,
+        bare: false,
     }))
 }
 
@@ -44,6 +47,7 @@ impl OutputSink for RecSink {
     fn handle_chunk(&mut self, chunk: &[u8]) {
         let mut l = self.log.lock().unwrap();
         l.sink_len += chunk.len();
+        if l.bare { return; }
         l.tl.push(json!({"e":"chunk","b":chunk}));
     }
     fn set_encoding(&mut self, enc: AsciiCompatibleEncoding) {
@@ -302,6 +306,7 @@ fn on_element<H: HandlerTypes>(
     hid: &str,
     log: &SLog,
 ) -> HandlerResult {
+    if log.lock().unwrap().bare { let (_, fail) = apply_el_ops(el, script, log, hid); return if fail { Err(injected()) } else { Ok(()) }; }
     let (inv, must_fail, sink_len) = begin_inv(log);
     let (full, light) = { let l = log.lock().unwrap(); (l.full, l.light) };
     let mut ev = if light { json!({"nattrs": el.attributes().len()}) } else { el_snapshot(el, full) };
@@ -326,6 +331,7 @@ fn on_element<H: HandlerTypes>(
 }
 
 fn on_end_tag(et: &mut EndTag<'_>, script: &[Value], hid: &str, log: &SLog) -> HandlerResult {
+    if script.is_empty() && log.lock().unwrap().bare { return Ok(()); }
     let (inv, must_fail, sink_len) = begin_inv(log);
     let mut fail = false;
     let mut ev = json!({"e":"ev","k":"et","h":hid,"inv":inv,"sl":sink_len,
@@ -391,6 +397,7 @@ fn on_end_tag(et: &mut EndTag<'_>, script: &[Value], hid: &str, log: &SLog) -> H
 }
 
 fn on_comment(c: &mut Comment<'_>, script: &[Value], hid: &str, log: &SLog) -> HandlerResult {
+    if script.is_empty() && log.lock().unwrap().bare { return Ok(()); }
     let (inv, must_fail, sink_len) = begin_inv(log);
     let mut fail = false;
     let mut ev = json!({"e":"ev","k":"cm","h":hid,"inv":inv,"sl":sink_len,
@@ -456,6 +463,7 @@ fn on_comment(c: &mut Comment<'_>, script: &[Value], hid: &str, log: &SLog) -> H
 }
 
 fn on_text(t: &mut TextChunk<'_>, script: &[Value], hid: &str, log: &SLog) -> HandlerResult {
+    if script.is_empty() && log.lock().unwrap().bare { return Ok(()); }
     let (inv, must_fail, sink_len) = begin_inv(log);
     let mut fail = false;
     let last = t.last_in_text_node();
@@ -570,6 +578,7 @@ fn on_doctype(d: &mut Doctype<'_>, script: &[Value], hid: &str, log: &SLog) -> H
 }
 
 fn on_doc_end(d: &mut DocumentEnd<'_>, script: &[Value], hid: &str, log: &SLog) -> HandlerResult {
+    if script.is_empty() && log.lock().unwrap().bare { return Ok(()); }
     let (inv, must_fail, sink_len) = begin_inv(log);
     let mut fail = false;
     let mut ev = json!({"e":"ev","k":"de","h":hid,"inv":inv,"sl":sink_len});
@@ -749,6 +758,8 @@ pub fn chunks_of<'a>(input: &'a [u8], cuts: &[usize]) -> Vec<&'a [u8]> {
 
 pub struct RunOpts {
     /// after an error, call write again to observe the documented panic
+    /// measurement run: see Log::bare
+    pub bare: bool,
     pub poke_after_error: bool,
     /// use the Send handler types
     pub send: bool,
@@ -759,7 +770,7 @@ pub struct RunOpts {
 }
 impl Default for RunOpts {
     fn default() -> Self {
-        RunOpts { poke_after_error: false, send: false, no_end: false, yields: 0 }
+        RunOpts { bare: false, poke_after_error: false, send: false, no_end: false, yields: 0 }
     }
 }
 
@@ -798,7 +809,7 @@ macro_rules! mk_run {
                     spin = spin.wrapping_mul(1664525).wrapping_add(1013904223);
                     for _ in 0..(spin >> 24) { std::hint::spin_loop(); }
                 }
-                push(json!({"e":"call","op":"write","b":ch}));
+                if !opts.bare { push(json!({"e":"call","op":"write","b":ch})); }
                 let r = catch_unwind(AssertUnwindSafe(|| rw.write(ch)));
                 let res = match &r {
                     Ok(Ok(())) => "ok".to_string(),
@@ -869,6 +880,7 @@ pub fn run(cfg: &Value, input: &[u8], cuts: &[usize], opts: &RunOpts) -> Vec<Val
     let full = cfg.get("full").and_then(|x| x.as_bool()).unwrap_or(false);
     let log = new_log(fail_at, full);
     log.lock().unwrap().light = cfg.get("light").and_then(|x| x.as_bool()).unwrap_or(false);
+    log.lock().unwrap().bare = opts.bare;
     if opts.send {
         run_send(cfg, input, cuts, opts, &log);
     } else {
